@@ -928,7 +928,9 @@ func (hash *SexpHash) SexpString(ps *PrintState) string {
 			onKey++
 			switch s := key.(type) {
 			case *SexpStr:
-				str += indInner + `"` + s.S + `":`
+				// quote the key like any other string, so that quotes and
+				// backslashes inside it survive printing
+				str += indInner + s.SexpString(nil) + ":"
 			case *SexpSymbol:
 				if asJSON {
 					str += indInner + `"` + s.name + `":`
